@@ -4,7 +4,6 @@ from .ops_c07 import OPS
 
 PROP, BIN, RUNMOD, RUNFN = "C07", "c07", "RunC07", "run_C07"
 MODES = [True, False]
-LEVEL = "other"   # until the Model = Spec theorems of this property are merged (placeholder theorem only)
 
 
 def gen_lists(rng, op, w, n, count):
